@@ -19,7 +19,7 @@ EXPLANATION = ('Bounded: every string of one or two fragments from a fragment al
                'exception types escape compile(). Proved so far: util.lower is total.')
 LEVEL_TEXT = EXPLANATION
 TECHNIQUE = 'bounded evaluation of the exception-effect contract of compile(); VC-proved leaf (util.lower)'
-MUSTFAIL = False
+MUSTFAIL_PER_FN = {"quick": 2, "thorough": None}
 
 FUNCTIONS = FUNCTIONS + ['soupsieve.css_parser.css_unescape.replace@esc', 'soupsieve.css_parser.css_unescape.replace@stresc', 'soupsieve.css_parser.css_unescape']
 
